@@ -30,6 +30,12 @@ func skChangeMap(a, b int, target MapSpec, scale float64) skOp {
 			c.Spec, c.Map = target, target.New()
 			for i := range c.Ent {
 				c.Ent[i].V *= scale
+				if a := math.Abs(c.Ent[i].V); a != 0 && (a < 4*c.Map.MinIndexableValue() || a > c.Map.MaxIndexableValue()/4) {
+					c.Off = true
+				}
+				if a := math.Abs(w.M[b].Ent[i].V); a != 0 && a < 4*w.M[b].Map.MinIndexableValue() {
+					c.Off = true // a source value in (or next to) the zero bucket: its bin is at the edge of the range
+				}
 			}
 			w.M[a] = c
 		}}
@@ -64,6 +70,9 @@ func checkC10(w *SketchWorld, slot int) (fails []mc.Fail) {
 		return
 	}
 	md := w.M[slot]
+	if md.Off {
+		return
+	}
 	fail := func(clause, format string, a ...any) {
 		fails = append(fails, mc.Fail{Clause: clause, Detail: fmt.Sprintf("%s, %s store, absorbed %v: ", md.Spec, sl.Store, md.Ent) + fmt.Sprintf(format, a...)})
 	}
